@@ -849,6 +849,29 @@ class SFloat:
     def __rtruediv__(self, o):
         return self._div(o, True)
 
+    def __floordiv__(self, o):
+        if self.eng.mode != "real":
+            # python computes float // from the exact quotient (fmod based), not from the rounded one: not modelled bit-precisely
+            self.eng._raise(Unsupported("float floor division in fp mode"))
+        q = self / o
+        if not isinstance(q, SFloat):
+            return q
+        n = math.floor(q)
+        return lift(self.eng, n) + 0.0 if not isinstance(n, SInt) else SFloat(self.eng, z3.ToReal(n.t), self.np)
+
+    def __rfloordiv__(self, o):
+        if self.eng.mode != "real":
+            self.eng._raise(Unsupported("float floor division in fp mode"))
+        q = lift(self.eng, o) / self
+        n = math.floor(q)
+        return lift(self.eng, n) + 0.0 if not isinstance(n, SInt) else SFloat(self.eng, z3.ToReal(n.t), self.np)
+
+    def _unsupported_op(self, *a, **k):
+        self.eng._raise(Unsupported("arithmetic operator not modelled for symbolic floats (%, **, divmod, bit operations)"))
+
+    __mod__ = __rmod__ = __pow__ = __rpow__ = __divmod__ = __rdivmod__ = _unsupported_op
+    __lshift__ = __rshift__ = __and__ = __or__ = __xor__ = __rlshift__ = __rrshift__ = __rand__ = __ror__ = __rxor__ = _unsupported_op
+
     def __neg__(self):
         return SFloat(self.eng, -self.t if self.eng.mode == "real" else z3.fpNeg(self.t), self.np)
 
@@ -1198,6 +1221,12 @@ class SInt:
 
     def __rmod__(self, o):
         return o % self.__index__()
+
+    def _unsupported_op(self, *a, **k):
+        self.eng._raise(Unsupported("arithmetic operator not modelled for symbolic ints (**, divmod, shifts, bit operations)"))
+
+    __pow__ = __rpow__ = __divmod__ = __rdivmod__ = _unsupported_op
+    __lshift__ = __rshift__ = __and__ = __or__ = __xor__ = __rlshift__ = __rrshift__ = __rand__ = __ror__ = __rxor__ = _unsupported_op
 
     def __truediv__(self, o):
         return SFloat(self.eng, num_term(self.eng, self)).__truediv__(o)
